@@ -8,6 +8,8 @@ package types
 //@ import sdk "github.com/cosmos/cosmos-sdk/types"
 //@ import ethtypes "github.com/ethereum/go-ethereum/core/types"
 //@ import cmtbytes "github.com/cometbft/cometbft/libs/bytes"
+//@ import strconv "strconv"
+//@ import common "github.com/ethereum/go-ethereum/common"
 
 // events.go — the tx_receipt event is a pure rendering of the receipt object it is given (C13); it fails only when the
 // receipt cannot be marshalled, and never touches state.
@@ -16,4 +18,9 @@ package types
 //@   requires forall i int :: (0 <= i && i < len(receipt.Logs)) ==> receipt.Logs[i] != nil
 //@   modifies nothing
 //@   ensures[C13.event_needs_marshalled_receipt] receipt.Type <= 2 ==> err == nil
+//@   ensures[C13.event_renders_receipt] err == nil ==> (ev.Type == "tx_receipt" && len(ev.Attributes) >= 7 && ev.Attributes[3].Key == "gasUsed" && ev.Attributes[3].Value == strconv.FormatUint(receipt.GasUsed, 10) && ev.Attributes[6].Key == "txIdx" && ev.Attributes[6].Value == strconv.FormatUint(receipt.TransactionIndex, 10))
+//@   ensures[C13.event_renders_log_index] (err == nil && len(receipt.Logs) > 0) ==> (len(ev.Attributes) >= 8 && ev.Attributes[7].Key == "logIdx" && ev.Attributes[7].Value == strconv.FormatUint(receipt.Logs[0].Index, 10))
+//@   ensures[C13.event_contract_address_key] err == nil ==> ev.Attributes[2].Key == "contractAddr"
+//@   ensures[C13.event_contract_address_empty] (err == nil && receipt.ContractAddress == zero(type(common.Address))) ==> ev.Attributes[2].Value == ""
+//@   ensures[C13.event_contract_address_hex] (err == nil && receipt.ContractAddress != zero(type(common.Address))) ==> (ev.Attributes[2].Value == receipt.ContractAddress.Hex() && ev.Attributes[2].Value != "")
 //@   panics[C13.event_never_panics,C20.event_never_panics] never
